@@ -100,6 +100,20 @@ func runCase(cs poolsim.Case, coqWanted bool) (coqOut string, failOut *failure, 
 	maxPool := uint64(20_000_000)
 	var prevWeight uint64
 
+	// ledgers of the blocks the tip passed through since the pool was last judged
+	var pendingLedgers []*poolsim.NodeInfo
+	addPath := func(from, to *chaingen.Node) {
+		if from == nil || from == to {
+			return
+		}
+		rev, app := poolsim.TreePath(from, to)
+		for _, x := range rev {
+			pendingLedgers = append(pendingLedgers, w.Info(x.Parent))
+		}
+		for _, x := range app {
+			pendingLedgers = append(pendingLedgers, w.Info(x))
+		}
+	}
 	// the monitors evaluated after every step; pathFrom is the tip before the step
 	check := func(step int, what string, pathFrom *chaingen.Node, addedWeight uint64, mineRecord bool) {
 		if fail != nil {
@@ -209,17 +223,10 @@ func runCase(cs poolsim.Case, coqWanted bool) (coqOut string, failOut *failure, 
 			}
 		}
 		// every ledger the reorg passed through
-		var ledgers []*poolsim.NodeInfo
-		if pathFrom != nil && pathFrom != tip {
-			rev, app := poolsim.TreePath(pathFrom, tip)
-			for _, x := range rev {
-				ledgers = append(ledgers, w.Info(x.Parent))
-			}
-			for _, x := range app {
-				ledgers = append(ledgers, w.Info(x))
-			}
-		}
-		ledgers = append(ledgers, w.Info(tip))
+		// (including the blocks of earlier steps after which the pool was not read)
+		addPath(pathFrom, tip)
+		ledgers := append(pendingLedgers, w.Info(tip))
+		pendingLedgers = nil
 		// outputs created by pooled / confirmed transactions
 		madeBy := map[string]types.TransactionID{}
 		for _, tr := range track {
@@ -352,6 +359,36 @@ func runCase(cs poolsim.Case, coqWanted bool) (coqOut string, failOut *failure, 
 		g := rng.New(stp.Seed ^ cs.Seed)
 		before := r.Tip
 		var added uint64
+		if stp.Quiet {
+			// no pool method is called in or after this step: the next step's call comes first
+			switch stp.Kind {
+			case "chain":
+				r.Quiet = true
+				if o := r.Chain(stp.Op); o.Err {
+					st["chain-op-errors"]++
+				}
+				st["quiet-chain-steps"]++
+			case "submit":
+				// (building the set reads the pool; the submission itself and what follows do not)
+				if s := r.Fabricate(g, stp.Flavor); s != nil {
+					r.Quiet = true
+					var err error
+					if s.V2 {
+						_, err, _ = r.Submit2Quiet(s.Basis, s.V2s, s.Metas)
+					} else {
+						_, err, _ = r.Submit1Quiet(s.V1, s.Metas)
+					}
+					if err != nil {
+						st["quiet-sets-refused"]++
+					} else {
+						st["quiet-sets-accepted"]++
+					}
+				}
+			}
+			addPath(before, r.Tip)
+			continue
+		}
+		r.Quiet = false
 		switch stp.Kind {
 		case "chain":
 			_, poolV2 := r.Pool()
@@ -495,6 +532,20 @@ func corpus(seed uint64) []poolsim.Case {
 		}
 		out = append(out, c)
 	}
+	// stretches of block submissions (one AddBlocks call each) during which no pool method is called,
+	// long enough for accumulator trees to merge, after an ordinary submission and after a refused one
+	for k := 0; k < 2; k++ {
+		c = poolsim.Case{Seed: seed*977 + 3000 + uint64(k), Regime: 2, Opts: chaingen.GenOpts{Blocks: 36, Branchiness: 0, TxPerBlock: 0}}
+		c.Plan = []poolsim.Step{all(3), {Kind: "submit", Flavor: "fresh-v2", Seed: 41 + seed}, {Kind: "submit", Flavor: "chain-v2", Seed: 42 + seed}, {Kind: "submit", Flavor: "fresh-v2", Seed: 43 + seed}}
+		if k == 1 {
+			c.Plan = append(c.Plan, poolsim.Step{Kind: "submit", Flavor: "conflict-v2", Seed: 44 + seed, Quiet: true})
+		}
+		for n := 4; n <= 36; n++ {
+			c.Plan = append(c.Plan, poolsim.Step{Kind: "chain", Op: mgrsim.Op{Kind: "add", Nodes: []int{n}}, Quiet: true})
+		}
+		c.Plan = append(c.Plan, poolsim.Step{Kind: "submit", Flavor: "fresh-v2", Seed: 45 + seed}, poolsim.Step{Kind: "mine"})
+		out = append(out, c)
+	}
 	// a well filled pool that is not full (8 chains x 5 x ~450 kB = 18e6 of 20e6), then a refused set
 	// whose new members are heavy: nothing may leave the pool
 	c = lin(2, 3)
@@ -603,6 +654,10 @@ func run(c *hx.Ctx) {
 			continue
 		}
 		cs.Plan = poolsim.GenPlan(rng.New(cs.Seed^0x5ca1ab1e), t, flavors, 2)
+		if i%3 == 1 {
+			// a stretch of block submissions without any pool read, sometimes begun by a refused set
+			cs.Plan = poolsim.QuietStretch(g, cs.Plan)
+		}
 		doCase(cs)
 	}
 	res.Notes = append(res.Notes, fmt.Sprintf("harness time %.1fs", time.Since(t0).Seconds()))
